@@ -63,6 +63,10 @@ type Case struct {
 	// Leak: before the request under test, another request to the same static
 	// route wrote this key into its own Params(); the one under test reads it.
 	Leak bool `json:"params_written_by_earlier_request,omitempty"`
+	// CaseSibling: in front of the cookies under test the request carries
+	// cookies whose names differ from theirs in letter case only ("CK", "Nosuch");
+	// cookie names are case-sensitive, so these are other cookies.
+	CaseSibling bool `json:"cookie_names_in_other_case,omitempty"`
 }
 
 var junkPairs = []string{"junk=%zz", "%=1", "a=%", "x;y=1", "=", "", "%zz", "b=%4", "c=1;d=2", "e=%%", "=%"}
@@ -238,6 +242,9 @@ func checkCase(c Case) (out evid.Outcome) {
 	}
 	h := http.Header{}
 	cookieHeader := pair
+	if c.CaseSibling {
+		cookieHeader = "CK=other-cookie; Nosuch=not-that-one; " + cookieHeader
+	}
 	if c.RawCk != "" {
 		cookieHeader += "; raw=" + unq(c.RawCk)
 	}
@@ -326,7 +333,10 @@ func checkCase(c Case) (out evid.Outcome) {
 		}
 	}
 	if ran && s.missing != "" {
-		return evid.Fail("cookie-missing", "Cookie of an absent name returns %q", s.missing)
+		return evid.Fail("cookie-missing", "Cookie of an absent name returns %q (cookie header %q)", s.missing, cookieHeader)
+	}
+	if c.CaseSibling {
+		out.Classes = append(out.Classes, "cookie-names-differing-in-case")
 	}
 	if !ran {
 		if seg == "" {
@@ -586,6 +596,7 @@ func genCase(t *rapid.T) Case {
 		c.JunkFirst = rapid.Bool().Draw(t, "junkfirst")
 	}
 	c.Leak = rapid.IntRange(0, 4).Draw(t, "leak") == 0
+	c.CaseSibling = rapid.IntRange(0, 3).Draw(t, "casesibling") == 0
 	if rapid.IntRange(0, 4).Draw(t, "rawck") == 0 {
 		c.RawCk = strconv.QuoteToASCII([]string{"%zz", "a b", "\"q\"", "x;y", "a=b", "%41", "\xff", "", "a+b%20c", "%4", "100%"}[rapid.IntRange(0, 10).Draw(t, "rck")])
 		if unq(c.RawCk) == "" {
